@@ -40,6 +40,25 @@ UNSAFE_COROUTINE_ATTRIBUTES = {"cr_frame", "cr_code"}
 UNSAFE_ASYNC_GENERATOR_ATTRIBUTES = {"ag_code", "ag_frame"}
 
 _mutable_spec: tuple[tuple[type[t.Any], frozenset[str]], ...] = (
+    # deque is a registered MutableSequence and the first match wins
+    (
+        deque,
+        frozenset(
+            [
+                "append",
+                "appendleft",
+                "clear",
+                "extend",
+                "extendleft",
+                "insert",
+                "pop",
+                "popleft",
+                "remove",
+                "reverse",
+                "rotate",
+            ]
+        ),
+    ),
     (
         abc.MutableSet,
         frozenset(
@@ -48,6 +67,7 @@ _mutable_spec: tuple[tuple[type[t.Any], frozenset[str]], ...] = (
                 "clear",
                 "difference_update",
                 "discard",
+                "intersection_update",
                 "pop",
                 "remove",
                 "symmetric_difference_update",
@@ -63,22 +83,6 @@ _mutable_spec: tuple[tuple[type[t.Any], frozenset[str]], ...] = (
         abc.MutableSequence,
         frozenset(
             ["append", "clear", "pop", "reverse", "insert", "sort", "extend", "remove"]
-        ),
-    ),
-    (
-        deque,
-        frozenset(
-            [
-                "append",
-                "appendleft",
-                "clear",
-                "extend",
-                "extendleft",
-                "pop",
-                "popleft",
-                "remove",
-                "rotate",
-            ]
         ),
     ),
 )
